@@ -10,18 +10,33 @@ TRUSTED_BASE = [
     "numpy.linalg.svd is a parameter of the model: the harness performs the same call on the forward-backward matrix and hands "
     "S and V to the model (the pseudo-spectra are invariant under the phase freedom of the singular vectors when the noise "
     "singular values are distinct: correspondence cases add noise; noiseless cases are evaluated by the oracle)",
-    "AIC/MDL argmin (logs and fractional powers of singular values) is a parameter; numpy.fft is the DFT parameter",
+    "AIC/MDL argmin (logs and fractional powers of singular values) is a parameter; numpy.fft is the DFT parameter. The values of "
+    "spectrum.criteria.aic_eigen / mdl_eigen are not part of C17: the oracle evaluates the library's own two functions (on data "
+    "selected, with a generation-time copy of the two formulas, so that their argmins differ) and checks which of the two each "
+    "criteria name uses",
     "float mode, rtol 1e-7",
+    "the oracle's reference pseudo-spectrum (ref_psd: steering-vector sums written from the definition, no FFT / reordering) uses "
+    "numpy.linalg.svd of the forward-backward matrix built from its definition; element-wise tolerance 1e-8 .. 1e-7 on noisy data",
 ]
 PARTIAL = ["'the K largest local maxima lie at the true frequencies' is proved as: the noise-subspace denominator vanishes exactly at "
            "the output index whose reported frequency is that of each exponential (null-vector / Vandermonde argument) relative to "
            "the SVD contract; the numerical peak search is evaluated by the oracle"]
-ASSUMPTIONS = ["tone bins are at least 3 bins apart (and real sinusoids at least 3 bins from 0 and NFFT/2), so that 'the K largest local "
-               "maxima' is well defined on the grid",
-               "N - P <= 100 or more (the code caps the number of rows at 100 per half; both regimes are generated)"]
-RULE = ("noiseless sums of K distinct on-grid complex exponentials (incl. bin 0 and negative bins) or K/2 real sinusoids, random "
-        "amplitudes/phases, N in 2P..128 (and N - P > 100), P in K+1..16, NFFT even/odd, music and ev; noisy data for the "
-        "model correspondence; argument-validation cases")
+ASSUMPTIONS = ["tone bins are at least 3 bins apart (for a real sinusoid at bin b the pair +-b counts: 2 <= b <= NFFT/2 - 2), so that 'the K "
+               "largest local maxima' is well defined on the grid; cases with tones 2 bins apart (incl. real sinusoids at bins 1 and NFFT/2-1) are "
+               "generated for the positivity / singular-value / rank clauses only",
+               "N - P <= 100 or more (the code caps the number of rows at 100 per half; both regimes are generated)",
+               "the frequencies are ON the NFFT grid, so the maxima are required at the exact bins / exact reported frequencies "
+               "(the 'within one bin' slack of the statement is what off-grid frequencies need; it is kept as the first test)",
+               "many-tone records (K >= 5) are kept only when the K-th singular value of the forward-backward matrix exceeds 1e-5 of "
+               "the largest (closely packed tones over a short record are numerically rank deficient in double precision; the "
+               "'exactly K non-negligible' clause uses the line 1e-8)",
+               "NFFT >= P (the functions reject NFFT < P); the default NFFT of the functions is 4096, of the classes the data length"]
+RULE = ("noiseless sums of K distinct on-grid complex exponentials (K 1..15, incl. bins 0 and +-NFFT/2) or K/2 real sinusoids (K/2 "
+        "1..7, incl. bins 1, 2, NFFT/2-2, NFFT/2-1), random amplitudes/phases, N in 2P..128 (and N - P > 100), P in K+1..16 (P = K+1 "
+        "over-weighted), NFFT even/odd and the default 4096, music and ev, functions and classes (.psd, .frequencies(), "
+        ".eigenvalues); noisy data with random frequencies (float arrays, python lists, integer arrays; NFFT from P upwards; "
+        "scale_by_freq; sampling) for the model correspondence and the class fold; argument-validation cases; low-noise records "
+        "on which the AIC, MDL dimensions and P-1 differ; thresholds 1, 1.5, 3, 10, 1e9")
 
 
 def _sp():
@@ -39,12 +54,89 @@ def fb_matrix(x, P):
     return np.vstack((x[I - K + P - 1], np.conj(x[I + K + 1])))
 
 
+def ref_psd(x, P, nsig, nfft, method):
+    """the pseudo-spectrum written from its definition (no FFT, no reordering): with the right singular vectors v_i of the
+    forward-backward matrix and the steering vector e(w)[k] = exp(j w k),
+        MUSIC(w) = 1 / sum_{i >= nsig} |e(w)^H v_i|^2,      EV(w) = 1 / sum_{i >= nsig} |e(w)^H v_i|^2 / S_i,
+    on the grid w_j = 2 pi (j - NFFT//2) / NFFT (centre-DC order of the function output).  Returns (psd, S)."""
+    FB = fb_matrix(x, P)
+    _U, S, Vh = np.linalg.svd(FB)
+    b = np.arange(nfft) - nfft // 2
+    EH = np.exp(-2j * np.pi * np.outer(b, np.arange(P)) / nfft)
+    den = np.zeros(nfft)
+    for i in range(nsig, P):
+        t = np.abs(EH @ np.conj(Vh[i, :])) ** 2
+        den = den + (t / max(S[i], np.finfo(float).eps * S[0]) if method == "ev" else t)
+    with np.errstate(all="ignore"):
+        return 1.0 / den, S
+
+
+def ref_fold(psd, real, nfft):
+    """what the classes report, from the centre-DC function output: real data -> the bins 0..NFFT//2 (odd: (NFFT-1)/2) doubled
+    (entry b is the value at frequency -b = the value at +b for real data); complex -> bins 0..NFFT-1 (two-sided)"""
+    psd = np.asarray(psd)
+    h = nfft // 2
+    if real:
+        L = h + 1 if nfft % 2 == 0 else (nfft + 1) // 2
+        return 2.0 * np.array([psd[h - b] for b in range(L)])
+    return np.array([psd[(m + h) % nfft] for m in range(nfft)])
+
+
+def relw(a, b):
+    """element-wise relative deviation (the pseudo-spectra span many decades: a max-norm comparison only sees the peaks)"""
+    a, b = np.asarray(a, dtype=float), np.asarray(b, dtype=float)
+    if a.shape != b.shape or not (np.all(np.isfinite(a)) and np.all(np.isfinite(b))) or np.any(b == 0):
+        return float("inf")
+    return float(np.max(np.abs(a / b - 1.0))) if a.size else 0.0
+
+
+def crit_dims(S, Nc):
+    """generation-time copy of the two order-selection formulas (used ONLY to pick data on which the two criteria disagree;
+    the oracle evaluates the library's own criteria functions, which are a parameter of the property)"""
+    S = np.asarray(S, dtype=float)
+    n = len(S)
+    a, m = [], []
+    with np.errstate(all="ignore"):
+        for k in range(n - 1):
+            ak = np.sum(S[k + 1:]) / (n - k)
+            gk = np.prod(S[k + 1:] ** (1.0 / (n - k)))
+            a.append(-2.0 * (n - k) * Nc * np.log(gk / ak) + 2.0 * k * (2.0 * n - k))
+            m.append(-(n - k) * Nc * np.log(gk / ak) + 0.5 * k * (2.0 * n - k) * np.log(Nc))
+    return int(np.argmin(a)) + 1, int(np.argmin(m)) + 1
+
+
+def _as_input(p):
+    """the container in which the samples are handed to the library: ndarray (default), python list, integer ndarray"""
+    x = p["x"]
+    c = p.get("container")
+    if c == "list":
+        return np.asarray(x).tolist()
+    if c:
+        a = np.asarray(x)
+        if np.isrealobj(a) and np.all(a == np.round(a)) and np.max(np.abs(a)) < 100:
+            return a.astype(c)
+        return a              # derived variants (scaled samples) are no longer integers: plain array
+    return x
+
+
+def _sel_kw(p):
+    """keyword arguments selecting the subspace rule of a 'class' case"""
+    kw = {}
+    if p.get("nsig") is not None:
+        kw["NSIG"] = p["nsig"]
+    if p.get("threshold") is not None:
+        kw["threshold"] = p["threshold"]
+    if p.get("criteria") is not None:
+        kw["criteria"] = p["criteria"]
+    return kw
+
+
 # ---- correspondence: function output given the SVD -------------------------------------------------
 
 def impl_psd(p):
     sp = _sp()
     f = sp.music if p["method"] == "music" else sp.ev
-    psd, S = f(p["x"], p["P"], NSIG=p["nsig"], NFFT=p["nfft"])
+    psd, S = f(_as_input(p), p["P"], NSIG=p["nsig"], NFFT=p["nfft"])
     return [np.asarray(psd)]
 
 
@@ -76,8 +168,11 @@ def post_fb(p, iv, mv):
 def impl_class(p):
     sp = _sp()
     cls = sp.pmusic if p["method"] == "music" else sp.pev
-    o = cls(p["x"], p["P"], NSIG=p["nsig"], NFFT=p["nfft"], sampling=p.get("fs", 1.0))
-    return [np.asarray(o.psd)]
+    kw = _sel_kw(p)
+    if p.get("sbf"):
+        kw["scale_by_freq"] = True
+    o = cls(_as_input(p), p["P"], NFFT=p["nfft"], sampling=p.get("fs", 1.0), **kw)
+    return [np.asarray(o.psd), np.asarray(o.eigenvalues)]
 
 
 def model_class(p):
@@ -85,8 +180,73 @@ def model_class(p):
     f = sp.music if p["method"] == "music" else sp.ev
     x = np.asarray(p["x"])
     nfft = p["nfft"] if p["nfft"] is not None else len(x)
-    psd, S = f(p["x"], p["P"], NSIG=p["nsig"], NFFT=nfft)
+    psd, S = f(p["x"], p["P"], NFFT=nfft, **_sel_kw(p))
     return ("F", proto.request("eigenclass", "F", [1 if np.isrealobj(x) else 0, nfft], [np.asarray(psd)]))
+
+
+def post_class(p, iv, mv):
+    # scale(): scale_by_freq multiplies the folded values by 2 pi / df, df = sampling / NFFT; the second output of the class is
+    # `.eigenvalues`: the singular values of the forward-backward matrix (computed here from its definition)
+    x = np.asarray(p["x"])
+    nfft = p["nfft"] if p["nfft"] is not None else len(x)
+    fac = 2 * np.pi / (p.get("fs", 1.0) / nfft) if p.get("sbf") else 1.0
+    return iv, [np.asarray(mv[0]) * fac, np.linalg.svd(fb_matrix(x, p["P"]), compute_uv=False)]
+
+
+def expected_dim(p, S, N):
+    """the signal-subspace dimension the three alternative rules define, from the singular values S"""
+    P = p["P"]
+    if p.get("nsig") is not None:
+        return p["nsig"]
+    if p.get("threshold") is not None:
+        return max(1, int(np.sum(S > p["threshold"] * np.min(S))))
+    from spectrum.criteria import aic_eigen, mdl_eigen          # the criteria values are a parameter of the property
+    fn = aic_eigen if p.get("criteria", "aic") == "aic" else mdl_eigen
+    return int(np.argmin(fn(S, 4 * min(N - P, 100)))) + 1
+
+
+def oracle_class(p):
+    """pmusic / pev against the definition: `.psd` is the fold of the pseudo-spectrum of the selected dimension, `.eigenvalues`
+    are the singular values the function returns"""
+    sp = _sp()
+    out = []
+    x = np.asarray(p["x"])
+    P, method = p["P"], p["method"]
+    nfft = p["nfft"] if p["nfft"] is not None else len(x)
+    cls = sp.pmusic if method == "music" else sp.pev
+    f = sp.music if method == "music" else sp.ev
+    kw = _sel_kw(p)
+    fs = p.get("fs", 1.0)
+    o = cls(_as_input(p), P, NFFT=p["nfft"], sampling=fs, scale_by_freq=bool(p.get("sbf")), **kw)
+    cp = np.asarray(o.psd)
+    ev = np.asarray(o.eigenvalues)
+    fpsd, S = f(_as_input(p), P, NFFT=nfft, **kw)
+    S = np.asarray(S)
+    if not np.array_equal(ev, S):
+        out.append("%s class: .eigenvalues differ from the singular values returned by the function" % method)
+    if rel(cp, ref_fold(np.asarray(fpsd), np.isrealobj(x), nfft) * (2 * np.pi / (fs / nfft) if p.get("sbf") else 1.0)) > 1e-12:
+        out.append("%s class: .psd is not the fold of the function output" % method)
+    if p.get("container"):
+        # the same sample values held in a python list / an integer array: same result as for the float array
+        fp2, S2 = f(p["x"], P, NFFT=nfft, **kw)
+        if rel(np.asarray(fp2), np.asarray(fpsd)) > 1e-12 or rel(np.asarray(S2), S) > 1e-12:
+            out.append("%s: result for %s samples differs from the result for the same values as a float array" % (method, p["container"]))
+    Sref = np.linalg.svd(fb_matrix(x, P), compute_uv=False)
+    if rel(ev, Sref) > 1e-8:
+        out.append("%s class: .eigenvalues are not the singular values of the forward-backward matrix: %.2e" % (method, rel(ev, Sref)))
+    n = expected_dim(p, Sref, len(x))
+    if not (0 <= n < P):
+        return out
+    ref, _ = ref_psd(x, P, n, nfft, method)
+    fac = 2 * np.pi / (fs / nfft) if p.get("sbf") else 1.0
+    want = ref_fold(ref, np.isrealobj(x), nfft) * fac
+    fr = o.frequencies()
+    if len(cp) != len(want) or len(cp) != len(fr):
+        out.append("%s class: %d values, %d frequencies, %d expected (NFFT=%d)" % (method, len(cp), len(fr), len(want), nfft))
+    elif relw(cp, want) > 1e-7:
+        out.append("%s class (%s, sampling=%s, scale_by_freq=%s): .psd differs from the folded pseudo-spectrum of dimension %d "
+                   "by %.2e" % (method, _sel_kw(p), fs, bool(p.get("sbf")), n, relw(cp, want)))
+    return out
 
 
 # ---- oracle ----------------------------------------------------------------------------------------
@@ -102,6 +262,13 @@ def _local_max(psd, circular):
     return idx
 
 
+def _min_sep(bins, nfft):
+    b = sorted(c % nfft for c in bins)
+    if len(b) < 2:
+        return nfft
+    return min(min((b[(i + 1) % len(b)] - b[i]) % nfft for i in range(len(b))), nfft)
+
+
 def oracle_tones(p):
     sp = _sp()
     x = np.asarray(p["x"])
@@ -109,6 +276,10 @@ def oracle_tones(p):
     out = []
     FB = fb_matrix(x, P)
     Sref = np.linalg.svd(FB, compute_uv=False)
+    # 'the K largest local maxima' needs every tone to be its own local maximum on the grid: tones >= 3 bins apart; cases with
+    # tones 2 bins apart carry peaks=False and are evaluated on the positivity / singular-value clauses only
+    peaks = p.get("peaks", True) and _min_sep(p["bins"], nfft) >= 3
+    real = np.isrealobj(x)
     for method in ("music", "ev"):
         f = sp.music if method == "music" else sp.ev
         with np.errstate(all="ignore"):
@@ -121,36 +292,81 @@ def oracle_tones(p):
             out.append("%s pseudo-spectrum is not positive everywhere" % method)
         if np.any(np.diff(S) > 1e-9 * S[0]):
             out.append("singular values are not non-increasing")
+        if len(S) != P:
+            out.append("%s returned %d singular values for order P=%d" % (method, len(S), P))
         if rel(S, Sref) > 1e-8:
             out.append("returned singular values are not those of the forward-backward data matrix (N=%d P=%d): %.2e" % (len(x), P, rel(S, Sref)))
         if np.sum(S > 1e-8 * S[0]) != K:
             out.append("%d non-negligible singular values for K=%d exponentials (N=%d P=%d)" % (int(np.sum(S > 1e-8 * S[0])), K, len(x), P))
         # function output is centre-DC ordered: index j has frequency bin j - NFFT//2
         finite = np.where(np.isfinite(psd), psd, np.inf)
-        lm = _local_max(finite, True)
-        lm = sorted(lm, key=lambda i: -finite[i])[:K]
-        got = sorted(((i - nfft // 2) % nfft) for i in lm)
         exp = sorted(b % nfft for b in p["bins"])
-        ok = len(got) == len(exp) and all(min(abs(g - e), nfft - abs(g - e)) <= 1 for g, e in zip(got, exp))
-        if not ok:
-            out.append("%s: the %d largest local maxima are at bins %s, true bins %s (NFFT=%d, N=%d, P=%d, %s)" % (
-                method, K, got, exp, nfft, len(x), P, "complex" if np.iscomplexobj(x) else "real"))
+        if peaks:
+            lm = _local_max(finite, True)
+            lm = sorted(lm, key=lambda i: -finite[i])[:K]
+            got = sorted(((i - nfft // 2) % nfft) for i in lm)
+            ok = len(got) == len(exp) and all(min(abs(g - e), nfft - abs(g - e)) <= 1 for g, e in zip(got, exp))
+            if not ok:
+                out.append("%s: the %d largest local maxima are at bins %s, true bins %s (NFFT=%d, N=%d, P=%d, %s)" % (
+                    method, K, got, exp, nfft, len(x), P, "complex" if np.iscomplexobj(x) else "real"))
+            elif got != exp:
+                # the frequencies are ON the NFFT grid: the noise-subspace projection vanishes at those very bins, so the
+                # maxima are at the exact bins (one bin of slack is only needed for off-grid frequencies)
+                out.append("%s: on-grid tones at bins %s but the %d largest local maxima are at bins %s (NFFT=%d, N=%d, P=%d, %s)" % (
+                    method, exp, K, got, nfft, len(x), P, "real" if real else "complex"))
+            # the K largest VALUES as well (no other entry comes near a vanishing denominator)
+            top = sorted(((int(i) - nfft // 2) % nfft) for i in np.argsort(-finite, kind="stable")[:K])
+            if top != exp:
+                out.append("%s: the %d largest values are at bins %s, true bins %s (NFFT=%d)" % (method, K, top, exp, nfft))
         # class output: the maximum sits at the entry whose reported frequency is a true frequency
         cls = sp.pmusic if method == "music" else sp.pev
         with np.errstate(all="ignore"):
             o = cls(p["x"], P, NSIG=K, NFFT=nfft, sampling=2.0)
             cp = np.asarray(o.psd)
         fr = np.asarray(o.frequencies())
+        ev = np.asarray(o.eigenvalues)
+        if not np.array_equal(ev, S):
+            out.append("%s class: .eigenvalues differ from the singular values returned by the function" % method)
+        nexp = nfft if not real else (nfft // 2 + 1 if nfft % 2 == 0 else (nfft + 1) // 2)
+        if len(cp) != nexp:
+            out.append("%s class: %d values for NFFT=%d (%s data)" % (method, len(cp), nfft, "real" if real else "complex"))
         if len(cp) != len(fr):
             out.append("%s class: %d values but %d frequencies" % (method, len(cp), len(fr)))
-        else:
-            am = int(np.argmax(np.where(np.isfinite(cp), cp, np.inf)))
+        elif peaks:
+            cfin = np.where(np.isfinite(cp), cp, np.inf)
+            if np.any(np.isnan(cp)) or np.any(cp <= 0):
+                out.append("%s class: pseudo-spectrum is not positive everywhere" % method)
+            am = int(np.argmax(cfin))
             fexp = [(b % nfft) * 2.0 / nfft for b in p["bins"]]
-            if np.isrealobj(x):
+            if real:
                 fexp = [min(f, 2.0 - f) for f in fexp]
             d = min(abs(fr[am] - f) for f in fexp) / (2.0 / nfft)
             if d > 1 + 1e-9:
                 out.append("%s class: maximum at frequency %.4f, %.2f bins from the nearest true frequency" % (method, fr[am], d))
+            # all of them, exactly: the K (complex; K/2 for real sinusoids) largest entries of .psd are reported at the true
+            # frequencies (a one-bin shift of the class axis against its values is a violation for on-grid tones)
+            ftrue = sorted(set(round(f, 12) for f in fexp))
+            kk = len(ftrue)
+            fgot = sorted(float(fr[int(i)]) for i in np.argsort(-cfin, kind="stable")[:kk])
+            if len(fgot) != kk or max(abs(a - b) for a, b in zip(fgot, ftrue)) > 1e-9:
+                out.append("%s class: the %d largest entries are reported at frequencies %s, true frequencies %s (sampling 2, NFFT=%d)" % (
+                    method, kk, [round(v, 5) for v in fgot], [round(v, 5) for v in ftrue], nfft))
+        if p.get("default_nfft") and peaks:
+            # NFFT omitted: the documented default of the functions is 4096 points
+            with np.errstate(all="ignore"):
+                psd4 = np.asarray(f(p["x"], P, NSIG=K)[0])
+            if len(psd4) != 4096:
+                out.append("%s without NFFT returned %d values (documented default 4096)" % (method, len(psd4)))
+            else:
+                if np.any(np.isnan(psd4)) or np.any(psd4 <= 0):
+                    out.append("%s (default NFFT) pseudo-spectrum is not positive everywhere" % method)
+                f4 = np.where(np.isfinite(psd4), psd4, np.inf)
+                lm = sorted(_local_max(f4, True), key=lambda i: -f4[i])[:K]
+                got = sorted(((i - 2048) % 4096) for i in lm)
+                want = sorted((b % nfft) * 4096.0 / nfft for b in p["bins"])
+                slack = 1e-9 if 4096 % nfft == 0 else 1.0
+                if len(got) != len(want) or any(min(abs(g - e), 4096 - abs(g - e)) > slack for g, e in zip(got, want)):
+                    out.append("%s (default NFFT=4096): the %d largest local maxima are at bins %s, true positions %s" % (method, K, got, want))
     return out
 
 
@@ -188,6 +404,13 @@ def oracle_validate(p):
             out.append("music(%s) differs from eigen(method='music', %s)" % (kw, kw))
         if not np.all(np.isfinite(got)) or not np.all(got > 0):
             out.append("music(%s) pseudo-spectrum is not finite and positive" % (kw,))
+        if rel(cps, ref_fold(got, np.isrealobj(x), 32)) > 1e-12:
+            out.append("pmusic(%s).psd is not the fold of music(%s)" % (kw, kw))
+        refe = np.asarray(sp.eigen(x, P, NFFT=32, method="ev", **kw)[0])
+        if rel(np.asarray(sp.ev(x, P, NFFT=32, **kw)[0]), refe) > 1e-12:
+            out.append("ev(%s) differs from eigen(method='ev', %s)" % (kw, kw))
+        if rel(np.asarray(sp.pev(x, P, NFFT=32, **kw).psd), ref_fold(refe, np.isrealobj(x), 32)) > 1e-12:
+            out.append("pev(%s).psd is not the fold of ev(%s)" % (kw, kw))
     try:
         sp.eigen(x, P, method="foo", NFFT=32)
         out.append("eigen accepted method='foo'")
@@ -215,6 +438,49 @@ def oracle_validate(p):
             pn, _ = sp.music(x, P, NSIG=n_c, NFFT=32)
             if rel(np.asarray(pc), np.asarray(pn)) > 1e-12:
                 out.append("criteria='%s' does not select argmin+1 singular values" % crit)
+    # ---- the three rules against the definition of the pseudo-spectrum (independent reference: ref_psd) --------------------
+    Sref = np.linalg.svd(fb_matrix(x, P), compute_uv=False)
+    if len(S) != P or rel(S, Sref) > 1e-12:
+        out.append("returned singular values are not those of the forward-backward data matrix")
+        return out
+    dims = {}
+    for t in (1.0, 1.5, 3.0, 10.0, 1e9):
+        # 'the singular values larger than threshold x the smallest one' (never fewer than one)
+        dims[("threshold", t)] = max(1, int(np.sum(Sref > t * np.min(Sref))))
+    if dims[("threshold", 1.0)] >= P:
+        out.append("harness: more than P-1 singular values strictly above the smallest one")
+    n_aic = int(np.argmin(aic_eigen(S, 4 * NP))) + 1        # the criteria values themselves are a parameter of the property
+    n_mdl = int(np.argmin(mdl_eigen(S, 4 * NP))) + 1
+    dims[("criteria", "aic")] = n_aic
+    dims[("criteria", "mdl")] = n_mdl
+    dims[("NSIG", 0)] = 0
+    dims[("NSIG", 1)] = 1
+    dims[("NSIG", P - 1)] = P - 1
+    if not (1 <= n_aic < P and 1 <= n_mdl < P):
+        out.append("harness: criteria argmin outside 1..P-1")
+        return out
+    real = np.isrealobj(x)
+    for (name, val), n in dims.items():
+        kw = {name: val}
+        for method, f, cls in (("music", sp.music, sp.pmusic), ("ev", sp.ev, sp.pev)):
+            got = np.asarray(f(x, P, NFFT=32, **kw)[0])
+            same = np.asarray(f(x, P, NFFT=32, NSIG=n)[0])
+            ref = ref_psd(x, P, n, 32, method)[0]
+            if not np.array_equal(got, same):
+                out.append("%s(%s=%r) is not %s(NSIG=%d) (P=%d, N=%d; dimensions aic %d mdl %d)" % (
+                    method, name, val, method, n, P, len(x), n_aic, n_mdl))
+            if relw(got, ref) > 1e-8:
+                out.append("%s(%s=%r): pseudo-spectrum differs from the definition with signal dimension %d by %.2e (P=%d, N=%d; "
+                           "dimensions aic %d mdl %d)" % (method, name, val, n, relw(got, ref), P, len(x), n_aic, n_mdl))
+            cp = np.asarray(cls(x, P, NFFT=32, **kw).psd)
+            if relw(cp, ref_fold(ref, real, 32)) > 1e-8:
+                out.append("%s class (%s=%r): .psd differs from the folded definition with signal dimension %d by %.2e" % (
+                    method, name, val, n, relw(cp, ref_fold(ref, real, 32))))
+    # the default rule (nothing passed) is the AIC one
+    if not np.array_equal(np.asarray(sp.music(x, P, NFFT=32)[0]), np.asarray(sp.music(x, P, NFFT=32, criteria="aic")[0])):
+        out.append("music without NSIG/threshold/criteria is not the documented default criteria='aic'")
+    if relw(np.asarray(sp.eigen(x, P, NFFT=32)[0]), ref_psd(x, P, n_aic, 32, "music")[0]) > 1e-8:
+        out.append("eigen with all defaults is not MUSIC with the AIC dimension %d" % n_aic)
     return out
 
 
@@ -256,15 +522,38 @@ def _key(p):
     if "crit" in p:
         return "valid|%s|%s|%s|%s|%d|%d" % (p["method"], p["nsig"], p["thr"], p["crit"], len(p["x"]), p["P"])
     x = np.asarray(p["x"])
-    return "%s|%d|%s|%s|%s|%s|%d" % (p.get("method"), len(x), p.get("P"), p.get("nsig", p.get("K")), p.get("nfft"),
-                                   np.iscomplexobj(x), hash(x.tobytes()) & 0xFFFFFF)
+    more = "".join("|%s=%s" % (k, p[k]) for k in ("criteria", "threshold", "sbf", "fs", "container", "peaks", "default_nfft")
+                   if p.get(k) not in (None, False))
+    return "%s|%d|%s|%s|%s|%s|%d%s" % (p.get("method"), len(x), p.get("P"), p.get("nsig", p.get("K")), p.get("nfft"),
+                                     np.iscomplexobj(x), hash(x.tobytes()) & 0xFFFFFF, more)
 
 
 def _tags(p):
     x = np.asarray(p["x"])
     n = p.get("nfft")
-    return ["complex" if np.iscomplexobj(x) else "real", "method:%s" % p.get("method", "both"),
-            "nfft:" + ("None" if n is None else ("odd" if n % 2 else "even")), "rows:" + ("capped" if len(x) - p["P"] > 100 else "full")]
+    t = ["complex" if np.iscomplexobj(x) else "real", "method:%s" % p.get("method", "both"),
+         "nfft:" + ("None" if n is None else ("odd" if n % 2 else "even")), "rows:" + ("capped" if len(x) - p["P"] > 100 else "full")]
+    if n is not None and n <= p["P"] + 1:
+        t.append("nfft:P..P+1")
+    for k in ("criteria", "threshold", "container"):
+        if p.get(k) is not None:
+            t.append("%s:%s" % (k, p[k]))
+    if p.get("sbf"):
+        t.append("scale_by_freq")
+    if "K" in p:
+        K, h = p["K"], p["nfft"] // 2
+        t.append("tones:K%s" % ("<=4" if K <= 4 else "5..9" if K <= 9 else "10..15"))
+        if p["P"] == K + 1:
+            t.append("tones:P=K+1")
+        if not p.get("peaks", True):
+            t.append("tones:2 bins apart (no peak clause)")
+        if p.get("default_nfft"):
+            t.append("tones:default NFFT")
+        if any(abs(b) in (h, 1, h - 1) or b == 0 for b in p["bins"]):
+            t.append("tones:edge bin (0, +-1, +-(NFFT//2-1), +-NFFT//2)")
+    elif "nsig" in p and p["nsig"] == 0:
+        t.append("nsig:0")
+    return t
 
 
 # kinds whose parameters describe the content of x: no derived degenerate records
@@ -273,9 +562,12 @@ NO_DEGEN = {"tones"}
 KINDS = {
     "psd": {"impl": impl_psd, "model": model_psd, "rtol": 1e-7, "atol": 1e-300, "key": _key, "tags": _tags},
     "fb": {"impl": impl_fb, "model": model_fb, "post": post_fb, "rtol": 1e-9, "atol": 1e-300, "key": _key, "tags": _tags},
-    "class": {"impl": impl_class, "model": model_class, "rtol": 1e-12, "atol": 0.0, "key": _key, "tags": _tags},
+    "class": {"impl": impl_class, "model": model_class, "post": post_class, "oracle": oracle_class, "rtol": 1e-12, "atol": 0.0,
+              "key": _key, "tags": _tags},
     "tones": {"oracle": oracle_tones, "key": _key, "tags": _tags},
-    "validate": {"oracle": oracle_validate, "key": _key, "tags": lambda p: ["validate"]},
+    "validate": {"oracle": oracle_validate, "key": _key,
+                 "tags": lambda p: ["validate"] + (["validate:aic%smdl" % ("!=" if p["n_aic"] != p["n_mdl"] else "==")] if "n_aic" in p else [])
+                 + (["validate:aic,mdl,P-1 all differ"] if "n_aic" in p and len({p["n_aic"], p["n_mdl"], p["P"] - 1}) == 3 else [])},
     # which arguments eigen() rejects (ValueError), which sizes it asserts on, and the threshold rule itself, against the model's
     # eigenValidate / signalSpace (the objects of theorems eigenValidate_rules, nsig_rules)
     "valid": {"impl": impl_valid, "model": model_valid, "strict_errors": True, "rtol": 0, "atol": 0, "key": _key,
@@ -285,12 +577,57 @@ KINDS = {
 NO_VARY = {"valid", "thr"}
 
 
-def _noisy(nrng, N, cplx):
+def _noisy(nrng, N, cplx, sigma=0.3, freqs=None):
+    """two complex exponentials / one real sinusoid in white noise; freqs None -> the fixed pair (0.11, -0.23) / 0.7 rad"""
     n = np.arange(N)
     if cplx:
-        return (np.exp(2j * np.pi * 0.11 * n) + 0.5 * np.exp(-2j * np.pi * 0.23 * n)
-                + 0.3 * (nrng.standard_normal(N) + 1j * nrng.standard_normal(N)))
-    return np.cos(0.7 * n + 0.3) + 0.3 * nrng.standard_normal(N)
+        f1, f2 = (0.11, -0.23) if freqs is None else freqs
+        return (np.exp(2j * np.pi * f1 * n) + 0.5 * np.exp(2j * np.pi * f2 * n)
+                + sigma * (nrng.standard_normal(N) + 1j * nrng.standard_normal(N)))
+    w = 0.7 if freqs is None else freqs[0]
+    return np.cos(w * n + 0.3) + sigma * nrng.standard_normal(N)
+
+
+def _rand_freqs(nrng, cplx):
+    if cplx:
+        f1 = float(nrng.uniform(-0.5, 0.5))
+        f2 = f1 + float(nrng.uniform(0.03, 0.97))        # distinct (mod 1)
+        return (f1, f2 - round(f2))
+    return (float(nrng.uniform(0.15, 3.0)),)
+
+
+def _centre(v, nfft):
+    h = nfft // 2
+    return int((v + h) % nfft) - h
+
+
+def _spread_bins(nrng, K, nfft, minsep=3):
+    """K distinct bins, circularly at least `minsep` apart: random composition of the NFFT circle into K gaps >= minsep"""
+    free = nfft - minsep * K
+    assert free >= 0
+    cuts = np.sort(nrng.integers(0, free + 1, K - 1)) if K > 1 else np.zeros(0, dtype=int)
+    extra = np.diff(np.concatenate(([0], cuts, [free])))
+    gaps = minsep + extra
+    v = int(nrng.integers(0, nfft))
+    out = []
+    for g in gaps:
+        out.append(_centre(v, nfft))
+        v += int(g)
+    return sorted(out)
+
+
+def _tones(nrng, bins, nfft, cplx, N):
+    t = np.arange(N)
+    if cplx:
+        return sum((1 + nrng.uniform(0, 2)) * np.exp(2j * np.pi * b * t / nfft + 1j * nrng.uniform(0, 6)) for b in bins)
+    return sum((1 + nrng.uniform(0, 2)) * np.cos(2 * np.pi * b * t / nfft + nrng.uniform(0, 6)) for b in bins if b > 0)
+
+
+def _conditioned(x, P, K):
+    """the K signal singular values stand clear of the 1e-8 'negligible' line used by the oracle (closely packed tones observed
+    over a short record are numerically rank deficient in double precision: not an input the clause can be evaluated on)"""
+    S = np.linalg.svd(fb_matrix(x, P), compute_uv=False)
+    return K <= len(S) and S[K - 1] > 1e-5 * S[0]
 
 
 KINDS["single"] = single.kind("C17")
@@ -308,23 +645,49 @@ def gen(rng, nrng, tier):
     for i in range(30 if tier == "quick" else 300):
         n = int(nrng.integers(2, 9))
         S = np.sort(nrng.integers(1, 40, n).astype(float))[::-1] / 4.0
-        if i % 4 == 0:
-            S[-1] = S[-2]                      # tied smallest singular values
-        yield ("thr", {"S": S, "thr": [1.0, 1.5, 2.0, 3.0, 100.0, 1.25][i % 6]})
+        if i % 3 == 0:
+            S[-1] = S[-2]                      # tied smallest singular values (3 and the 8 thresholds are coprime)
+        yield ("thr", {"S": S, "thr": [1.0, 1.5, 2.0, 3.0, 100.0, 1.25, 10.0, 1e9][i % 8]})
     n = 50 if tier == "quick" else 700
     for i in range(n):
         cplx = bool(i % 2)
         P = int(nrng.integers(3, 13))
         N = int(nrng.integers(2 * P, 129)) if i % 7 else int(nrng.integers(P + 101, P + 140))
-        x = _noisy(nrng, N, cplx)
+        # the fixed frequency pair every third case, random frequencies otherwise
+        x = _noisy(nrng, N, cplx, freqs=None if i % 3 == 0 else _rand_freqs(nrng, cplx))
         nfft = [32, 33, 64, 49, 128][i % 5]
         if nfft < P:
             nfft = 2 * P + 1
         method = ["music", "ev"][(i // 2) % 2]
         nsig = int(nrng.integers(0, P))
-        yield ("psd", {"x": x, "P": P, "nsig": nsig, "nfft": nfft, "method": method})
+        # the samples as a python list / an integer array (integer-valued samples) for some cases
+        cont = [None, "list", "int64", None, "int8"][(i // 3) % 5]
+        if cont and cont.startswith("int"):
+            if cplx:
+                cont = "list"
+            else:
+                x = np.round(16 * x) + 0.0        # (+0.0: no negative zeros, which an integer array cannot hold)
+        extra = {"container": cont} if cont else {}
+        yield ("psd", {"x": x, "P": P, "nsig": nsig, "nfft": nfft, "method": method, **extra})
         yield ("fb", {"x": x, "P": P})
         yield ("class", {"x": x, "P": P, "nsig": max(1, nsig), "nfft": [nfft, None][i % 2], "method": method, "fs": [1.0, 3.0][i % 2]})
+        # the classes under every way of choosing the dimension, scale_by_freq, other sampling rates, list / integer samples
+        mode = (i // 2) % 6
+        sel = [{"criteria": "aic"}, {"criteria": "mdl"}, {"threshold": [3.0, 1.5, 10.0, 1.0][(i // 12) % 4]}, {"nsig": 0},
+               {"threshold": 1e9}, {"nsig": nsig}][mode]
+        yield ("class", {"x": x, "P": P, "nsig": None, "nfft": [nfft, None][(i // 4) % 2], "method": ["music", "ev"][i % 2 ^ (i // 12) % 2],
+                         "fs": [1.0, 3.0, 0.5][i % 3], "sbf": bool((i // 3) % 2), **sel, **extra})
+    # NFFT equal to / just above the order P (NFFT < P is rejected by the functions: not generated)
+    small = [(8, 8), (8, 9), (5, 5), (3, 4), (2, 2), (2, 3)]
+    for i in range(12 if tier == "quick" else 120):
+        P, nfft = small[i % 6]
+        cplx = bool((i // 6) % 2)
+        N = int(nrng.integers(2 * P, 41))
+        x = _noisy(nrng, N, cplx, freqs=_rand_freqs(nrng, cplx))
+        method = ["music", "ev"][(i // 3) % 2]
+        nsig = int(nrng.integers(0, P))
+        yield ("psd", {"x": x, "P": P, "nsig": nsig, "nfft": nfft, "method": method})
+        yield ("class", {"x": x, "P": P, "nsig": nsig, "nfft": nfft, "method": method, "fs": 1.0, "sbf": bool(i % 2)})
     nt = 50 if tier == "quick" else 700
     for i in range(nt):
         cplx = bool(i % 3)
@@ -356,9 +719,103 @@ def gen(rng, nrng, tier):
             x = sum((1 + nrng.uniform(0, 2)) * np.exp(2j * np.pi * b * t / nfft + 1j * nrng.uniform(0, 6)) for b in bins)
         else:
             x = sum((1 + nrng.uniform(0, 2)) * np.cos(2 * np.pi * b * t / nfft + nrng.uniform(0, 6)) for b in bins if b > 0)
-        yield ("tones", {"x": x, "P": P, "K": K, "bins": bins, "nfft": nfft})
+        extra = {"default_nfft": True} if (i % 50 in (0, 2, 5)) else {}     # NFFT 64 / 128: the tones are on the 4096 grid too
+        yield ("tones", {"x": x, "P": P, "K": K, "bins": bins, "nfft": nfft, **extra})
+    # ---- the rest of the quantifier: K up to 15 (P = K+1 .. 16), tones at the edge bins, tones 2 bins apart ----------------
+    for i in range(48 if tier == "quick" else 600):
+        fam = i % 6
+        nfft = [64, 63, 128, 45, 96][(i // 6) % 5]
+        h = nfft // 2
+        for attempt in range(40):
+            peaks = True
+            if fam in (0, 1):
+                # many complex exponentials, P = K+1 (the smallest admissible order) two times out of three
+                cplx = True
+                K = int(nrng.integers(5, 16))
+                bins = _spread_bins(nrng, K, nfft, 3) if attempt < 30 else sorted(_centre(round(j * nfft / K), nfft) for j in range(K))
+            elif fam == 2:
+                # many real sinusoids (K/2 up to 7), positive bins from 2 to NFFT//2 - 2
+                cplx = False
+                K2 = int(nrng.integers(3, 8))
+                free = (h - 2 - 2) - 3 * (K2 - 1)            # positive bins 2 .. h-2, at least 3 apart: random gaps
+                cuts = np.sort(nrng.integers(0, free + 1, K2))
+                pos = [int(2 + cuts[j] + 3 * j) for j in range(K2)]
+                bins = pos + [-b for b in pos]
+                K = 2 * K2
+            elif fam == 3:
+                # complex exponentials at the edge of the grid: bin -NFFT/2 (even NFFT: the Nyquist bin) or +-(NFFT-1)/2 (odd)
+                cplx = True
+                K = int(nrng.integers(1, 5))
+                edge = [-h] if nfft % 2 == 0 else [[-h], [h], [-h, h - 3]][(i // 30) % 3]
+                bins = list(edge[:K])
+                if (i // 12) % 2 and len(bins) < K:
+                    bins.append(0)
+                while len(bins) < K:
+                    b = int(nrng.integers(-h + (1 if nfft % 2 == 0 else 0), h + (0 if nfft % 2 == 0 else 1)))
+                    if all(min(abs(b - c) % nfft, nfft - abs(b - c) % nfft) >= 3 for c in bins):
+                        bins.append(b)
+                bins = sorted(bins)
+            elif fam == 4:
+                # real sinusoids next to DC / next to NFFT/2: the pair +-b is 2 bins apart around 0 (b = 1) or around the Nyquist
+                # bin (even NFFT, b = NFFT/2 - 1): singular-value and positivity clauses only; 3 apart for odd NFFT (all clauses)
+                cplx = False
+                pos = [[1], [h - 1], [1, h - 1], [2], [h - 2]][(i // 30) % 5]
+                if (i // 12) % 2:
+                    b = int(nrng.integers(5, h - 5))
+                    pos = sorted(pos + [b])
+                bins = pos + [-b for b in pos]
+                K = len(bins)
+            else:
+                # complex exponentials 2 bins apart: rank / singular-value / positivity clauses only
+                cplx = True
+                K = int(nrng.integers(2, 5))
+                b0 = int(nrng.integers(-h + 1, h - 2))
+                bins = [b0, b0 + 2]
+                while len(bins) < K:
+                    b = int(nrng.integers(-h + 1, h))
+                    if all(min(abs(b - c) % nfft, nfft - abs(b - c) % nfft) >= 2 for c in bins):
+                        bins.append(b)
+                bins = sorted(bins)
+                peaks = False
+            if fam in (0, 1, 2) and (i // 6) % 3:
+                P = K + 1
+            else:
+                P = int(nrng.integers(K + 1, 17))
+            N = int(nrng.integers(2 * P, 129)) if (i // 6) % 9 else int(nrng.integers(P + 101, P + 130))
+            x = _tones(nrng, bins, nfft, cplx, N)
+            if _conditioned(x, P, K):
+                break
+        else:
+            continue
+        yield ("tones", {"x": x, "P": P, "K": K, "bins": bins, "nfft": nfft, "peaks": peaks and _min_sep(bins, nfft) >= 3})
     for i in range(6 if tier == "quick" else 40):
         cplx = bool(i % 2)
         P = int(nrng.integers(4, 10))
         x = _noisy(nrng, int(nrng.integers(2 * P + 4, 80)), cplx)
         yield ("validate", {"x": x, "P": P})
+    # low noise, larger orders, random frequencies: data on which the AIC and the MDL dimensions differ from each other (and, when
+    # the search finds it, both from P-1), so that each criteria name is tied to its own rule
+    for i in range(6 if tier == "quick" else 60):
+        cplx = bool(i % 2)
+        best = None
+        for attempt in range(80):
+            P = int(nrng.integers(8, 13))
+            N = int(nrng.integers(2 * P, 2 * P + 7)) if attempt % 2 == 0 else int(nrng.integers(2 * P, 101))
+            sigma = float(nrng.uniform(0.01, 0.05))
+            Kt = int(nrng.integers(1, 4))
+            t = np.arange(N)
+            if cplx:
+                x = sum((0.5 + nrng.uniform(0, 1)) * np.exp(2j * np.pi * nrng.uniform(-0.45, 0.45) * t + 1j * nrng.uniform(0, 6)) for _ in range(Kt))
+                x = x + sigma * (nrng.standard_normal(N) + 1j * nrng.standard_normal(N))
+            else:
+                x = sum((0.5 + nrng.uniform(0, 1)) * np.cos(2 * np.pi * nrng.uniform(0.05, 0.45) * t + nrng.uniform(0, 6)) for _ in range(Kt))
+                x = x + sigma * nrng.standard_normal(N)
+            S = np.linalg.svd(fb_matrix(x, P), compute_uv=False)
+            a, m = crit_dims(S, 4 * min(N - P, 100))
+            score = (a != m) + (a != m and a != P - 1 and m != P - 1)
+            if best is None or score > best[0]:
+                best = (score, x, P, a, m)
+            if score == 2 or (score == 1 and i % 3 == 2):
+                break
+        _sc, x, P, a, m = best
+        yield ("validate", {"x": x, "P": P, "n_aic": a, "n_mdl": m})
